@@ -2,6 +2,7 @@
 mod corefn;
 mod memfs;
 mod pathfn;
+mod sched;
 mod util;
 
 use std::io::{BufRead, BufWriter, Write};
@@ -30,6 +31,17 @@ fn main() {
                         None => corefn::call(toks[0], &toks[1..], &mut touched),
                     }
                 };
+                writeln!(out, "{}", res.unwrap_or_else(|| "bad-op".to_string())).unwrap();
+            }
+        },
+        "sched" => {
+            for (k, _) in std::env::vars_os() {
+                std::env::remove_var(k);
+            }
+            for line in stdin.lock().lines() {
+                let line = line.unwrap();
+                let toks: Vec<&str> = line.trim().split(' ').collect();
+                let res = if toks.len() >= 2 && toks[0] == "sched" { sched::call(&toks[1..]) } else { None };
                 writeln!(out, "{}", res.unwrap_or_else(|| "bad-op".to_string())).unwrap();
             }
         },
